@@ -21,6 +21,8 @@ pub struct Case {
     pub injects: Vec<crate::net::Inject>,
     /// run every execution twice (forging off / on) and require identical observations
     pub differential: bool,
+    /// deviations are only placed at datagram indices >= this (0 = everywhere)
+    pub first_index: u32,
 }
 
 fn menu_null() -> Vec<Action> {
@@ -48,7 +50,7 @@ pub fn family(name: &str, tier: Tier) -> Vec<Case> {
             // covering set: every value of every dimension at least once with null TLS
             let mut add = |s: Scenario, k: usize| {
                 let menu = if s.tls == Tls::Null { menu_null() } else { menu_tls() };
-                out.push(Case { scn: s, menu, k, extra: vec![], expect: Expect::Complete, injects: vec![], differential: false });
+                out.push(Case { scn: s, menu, k, extra: vec![], expect: Expect::Complete, injects: vec![], differential: false, first_index: 0 });
             };
             let mut s = Scenario::base("data/echo-10000-whole");
             s.tasks = vec![echo_task(10_000, 0)];
@@ -117,7 +119,7 @@ pub fn family(name: &str, tier: Tier) -> Vec<Case> {
             // L1: blocking of every kind, finite faults, must complete
             let mut add = |s: Scenario, k: usize| {
                 let menu = if s.tls == Tls::Null { menu_null() } else { menu_tls() };
-                out.push(Case { scn: s, menu, k, extra: bh(&[0, 1, 2]), expect: Expect::Complete, injects: vec![], differential: false });
+                out.push(Case { scn: s, menu, k, extra: bh(&[0, 1, 2]), expect: Expect::Complete, injects: vec![], differential: false, first_index: 0 });
             };
             let mut s = Scenario::base("live/stream-credit");
             s.server.stream_window = Some(1000);
@@ -157,7 +159,7 @@ pub fn family(name: &str, tier: Tier) -> Vec<Case> {
                 s.server.handshake_ms = Some(5000);
                 s.tasks = vec![echo_task(6000, 1000)];
                 s.horizon_ms = 60_000;
-                out.push(Case { scn: s, menu: vec![], k: 0, extra: vec![Action::BlackholeFrom(0), Action::BlackholeFrom(1), Action::BlackholeFrom(2)], expect: Expect::Report, injects: vec![], differential: false });
+                out.push(Case { scn: s, menu: vec![], k: 0, extra: vec![Action::BlackholeFrom(0), Action::BlackholeFrom(1), Action::BlackholeFrom(2)], expect: Expect::Report, injects: vec![], differential: false, first_index: 0 });
             }
         }
         // ------------------------------------------------------------------ FLOW
@@ -175,7 +177,7 @@ pub fn family(name: &str, tier: Tier) -> Vec<Case> {
                     s.client.conn_window = Some(cw.max(64));
                     s.tasks = vec![echo_task(if sw.min(cw) < 10 { 40 } else { 3000 }, 0)];
                     s.horizon_ms = 120_000;
-                    out.push(Case { scn: s, menu: menu_null(), k: 1, extra: vec![], expect: Expect::Complete, injects: vec![], differential: false });
+                    out.push(Case { scn: s, menu: menu_null(), k: 1, extra: vec![], expect: Expect::Complete, injects: vec![], differential: false, first_index: 0 });
                 }
             }
             // write > window then reset: the RESET_STREAM final size
@@ -188,7 +190,7 @@ pub fn family(name: &str, tier: Tier) -> Vec<Case> {
                     vec![Op::OpenBidi, Op::Write(100, 0), Op::Sleep(60), Op::Reset(5), Op::Sleep(200)],
                     vec![Op::OpenUni, Op::Write(100, 0), Op::Reset(5), Op::Sleep(200)],
                 ];
-                out.push(Case { scn: s, menu: menu_null(), k: 1, extra: vec![], expect: Expect::Nothing, injects: vec![], differential: false });
+                out.push(Case { scn: s, menu: menu_null(), k: 1, extra: vec![], expect: Expect::Nothing, injects: vec![], differential: false, first_index: 0 });
             }
             // stream-count limits
             for lim in [1u64, 2] {
@@ -196,7 +198,7 @@ pub fn family(name: &str, tier: Tier) -> Vec<Case> {
                 s.server.max_bidi_remote = Some(lim);
                 s.server.max_uni_remote = Some(lim);
                 s.tasks = vec![[echo_task(300, 0), echo_task(300, 0), echo_task(300, 0)].concat(), [uni_task(300, 0), uni_task(300, 0), uni_task(300, 0)].concat()];
-                out.push(Case { scn: s, menu: menu_null(), k: if quick { 1 } else { 2 }, extra: vec![], expect: Expect::Complete, injects: vec![], differential: false });
+                out.push(Case { scn: s, menu: menu_null(), k: if quick { 1 } else { 2 }, extra: vec![], expect: Expect::Complete, injects: vec![], differential: false, first_index: 0 });
             }
         }
         // ------------------------------------------------------------------ LIFECYCLE
@@ -228,7 +230,7 @@ pub fn family(name: &str, tier: Tier) -> Vec<Case> {
                     if quick && idx % 2 == 0 && act != "reset" {
                         continue;
                     }
-                    out.push(Case { scn: s, menu: menu_null(), k: 1, extra: vec![], expect: Expect::Nothing, injects: vec![], differential: false });
+                    out.push(Case { scn: s, menu: menu_null(), k: 1, extra: vec![], expect: Expect::Nothing, injects: vec![], differential: false, first_index: 0 });
                 }
             }
             // peer-driven: server sends STOP_SENDING / resets its direction / closes
@@ -240,7 +242,7 @@ pub fn family(name: &str, tier: Tier) -> Vec<Case> {
                 let mut s = Scenario::base(name);
                 f(&mut s.server_mode);
                 s.tasks = base_tasks();
-                out.push(Case { scn: s, menu: menu_null(), k: 1, extra: vec![], expect: Expect::Nothing, injects: vec![], differential: false });
+                out.push(Case { scn: s, menu: menu_null(), k: 1, extra: vec![], expect: Expect::Nothing, injects: vec![], differential: false, first_index: 0 });
             }
         }
         // ------------------------------------------------------------------ HS
@@ -251,14 +253,14 @@ pub fn family(name: &str, tier: Tier) -> Vec<Case> {
                 s.mtu = mtu;
                 s.tasks = vec![echo_task(2000, 0)];
                 let menu = if tls == Tls::Null { menu_null() } else { menu_tls() };
-                out.push(Case { scn: s, menu, k: if tls == Tls::Null { 2 } else if quick { 1 } else { 2 }, extra: vec![], expect: Expect::Complete, injects: vec![], differential: false });
+                out.push(Case { scn: s, menu, k: if tls == Tls::Null { 2 } else if quick { 1 } else { 2 }, extra: vec![], expect: Expect::Complete, injects: vec![], differential: false, first_index: 0 });
             }
             // early close by the server application: CONNECTION_CLOSE packets count too
             let mut s = Scenario::base("hs/tls-server-early-close");
             s.tls = Tls::S2n;
             s.server_mode.close_after_ms = Some(0);
             s.tasks = vec![echo_task(2000, 0)];
-            out.push(Case { scn: s, menu: menu_tls(), k: 1, extra: vec![], expect: Expect::Nothing, injects: vec![], differential: false });
+            out.push(Case { scn: s, menu: menu_tls(), k: 1, extra: vec![], expect: Expect::Nothing, injects: vec![], differential: false, first_index: 0 });
         }
         // ------------------------------------------------------------------ STRAY: datagrams for no connection
         "stray" => {
@@ -277,7 +279,7 @@ pub fn family(name: &str, tier: Tier) -> Vec<Case> {
                     }
                     size += runs * step;
                 }
-                out.push(Case { scn: s, menu: vec![], k: 0, extra: vec![], expect: Expect::Complete, injects, differential: false });
+                out.push(Case { scn: s, menu: vec![], k: 0, extra: vec![], expect: Expect::Complete, injects, differential: false, first_index: 0 });
             }
         }
         // ------------------------------------------------------------------ FORGE: forged variants of genuine datagrams
@@ -289,22 +291,33 @@ pub fn family(name: &str, tier: Tier) -> Vec<Case> {
                 // with null TLS nothing is authenticated: only the handshake datagrams (Initial packets are
                 // protected by nothing there either) - so null is used for replays only
                 let menu = if tls == Tls::S2n { vec![Action::Forge(0), Action::Forge(1), Action::Forge(2), Action::Forge(3)] } else { vec![Action::Dup(60_000), Action::Dup(400_000)] };
-                out.push(Case { scn: s, menu, k: 1, extra: vec![], expect: Expect::Complete, injects: vec![], differential: tls == Tls::S2n });
+                out.push(Case { scn: s, menu, k: 1, extra: vec![], expect: Expect::Complete, injects: vec![], differential: tls == Tls::S2n, first_index: 0 });
             }
             let mut s = Scenario::base("forge/tls-replays");
             s.tls = Tls::S2n;
             s.tasks = vec![echo_task(3000, 1000)];
-            out.push(Case { scn: s, menu: vec![Action::Dup(1000), Action::Dup(60_000), Action::Dup(400_000)], k: if quick { 1 } else { 2 }, extra: vec![], expect: Expect::Complete, injects: vec![], differential: false });
+            out.push(Case { scn: s, menu: vec![Action::Dup(1000), Action::Dup(60_000), Action::Dup(400_000)], k: if quick { 1 } else { 2 }, extra: vec![], expect: Expect::Complete, injects: vec![], differential: false, first_index: 0 });
         }
         // ------------------------------------------------------------------ KEYUP (hook H5)
         "keyup" => {
-            for (name, tls, n, size) in [("keyup/tls-every-60", Tls::S2n, 60u64, 150_000usize), ("keyup/null-every-40", Tls::Null, 40, 100_000)] {
+            for (name, tls, n, size) in [("keyup/tls-every-60", Tls::S2n, 60u64, 120_000usize), ("keyup/null-every-40", Tls::Null, 40, 80_000)] {
                 let mut s = Scenario::base(name);
                 s.tls = tls;
                 s.key_update_every = Some(n);
+                // flow control caps the rate at ~5 packets per round trip, so that consecutive key updates
+                // are more than 3 PTO apart (the limit real AEAD limits guarantee by many orders of
+                // magnitude): a peer may only start the next update once the previous one is acknowledged,
+                // and a receiver may defer creating the next keys for that long (RFC 9001 6.1, 6.5)
+                s.client.stream_window = Some(6000);
+                s.client.conn_window = Some(6000);
+                s.server.stream_window = Some(6000);
+                s.server.conn_window = Some(6000);
                 s.tasks = vec![echo_task(size, 0)];
                 s.horizon_ms = 120_000;
-                out.push(Case { scn: s, menu: vec![Action::Drop, Action::Delay(3), Action::Dup(1000)], k: 1, extra: vec![], expect: Expect::Complete, injects: vec![], differential: false });
+                // deviations start after the handshake: a lost handshake flight inflates the RTT estimate to
+                // ~1 s and with it the PTO-long key retention window beyond the artificial update interval of
+                // hook H5 - a state real AEAD limits cannot produce
+                out.push(Case { scn: s, menu: vec![Action::Drop, Action::Delay(3), Action::Dup(1000)], k: 1, extra: vec![], expect: Expect::Complete, injects: vec![], differential: false, first_index: 12 });
             }
         }
         _ => panic!("unknown family {}", name),
